@@ -34,7 +34,7 @@ func (c09) Info() core.Info {
 func (c09) Plan(tier string) core.Plan { return core.Plan{Shards: 16} }
 
 var c09Labels = []string{"a", "b", "example", "com", "www", "x-y", "a1", "-a", "a-", "a--b", "test", "a_b", "a!b", "a$b", "a&b", "a'b", "a(b)", "a*b", "a+b", "a,b", "a;b", "a=b", "a~b", "a{b}", "a\"b", "a`b",
-	"A", "ExAmPlE", "xn--nxasmq6b", "xn--a", "xn--", "Xn--NxAsMq6b", "xn--ab-miv", "1", "0x7f", "09", "256", "1a", "a b", "a/b", "a?b", "a#b", "a@b", "a:b", "a[b", "a]b", "a\\b", "a^b", "a|b", "a<b", "a>b", "a%b", "a\tb", "a\nb", "a\x00b", "a\x7fb", "",
+	"A", "ExAmPlE", "xn--nxasmq6b", "xn--a", "xn--", "Xn--NxAsMq6b", "xn--ab-miv", "1", "0x7f", "09", "256", "1a", "a b", "a/b", "a?b", "a#b", "a@b", "a:b", "a[b", "a]b", "a\\b", "a^b", "a|b", "a<b", "a>b", "a%b", "a%41b", "%61", "ex%61mple", "a%2eb", "a%2Fb", "%25", "a%2541", "a\tb", "a\nb", "a\x00b", "a\x7fb", "",
 	"é", "ü", "ß", "ς", "σ", "日本", "🌈", "­", "a­b", "‍", "a‍b", "‌", "ａ", "Ａ", "１", "א", "אa", "ا", "á", "≠", "a≠b", "ǆ", "ﬁ", "℀", "İ", "ı", "K", "�", "．", "。", "。", "｡"}
 
 // labels that are expected to survive (the relation is only interesting when hosts are accepted)
@@ -117,13 +117,24 @@ func (m c09) Run(ctx *core.Ctx) {
 		d := c09Host(r)
 		cs := &core.Case{Check: "spellings", Input: core.S(c09Spell(r, d)), Alt: core.S(c09Spell(r, d)), Base: core.S(d),
 			Config: []string{gen.Pick(r, []string{"https", "https", "http", "ws", "ftp", "wss"})}}
+		if r.IntN(6) == 0 {
+			cs.Config = append(cs.Config, "identity-hooks")
+		}
 		ctx.Begin(cs)
 		m.Exec(ctx, cs)
 	}
 }
 
+// c09Hooked: a strict parser whose host hooks hand the host back unchanged (one of them after
+// looking at the URL): the host rules are the default parser's.
+var c09Hooked = url.NewParser(url.WithPreParseHostFunc(hostFuncArg("identity")), url.WithPostParseHostFunc(hostFuncArg("reads")))
+
 func (c09) hostOf(ctx *core.Ctx, input string) (string, bool, *core.Panic) {
-	u, err, pan := parseImpl(ctx, nil, input, "", false, false)
+	return c09HostOfWith(ctx, nil, input)
+}
+
+func c09HostOfWith(ctx *core.Ctx, p url.Parser, input string) (string, bool, *core.Panic) {
+	u, err, pan := parseImpl(ctx, p, input, "", false, false)
 	if pan != nil {
 		return "", false, pan
 	}
@@ -190,8 +201,13 @@ func (m c09) Exec(ctx *core.Ctx, cs *core.Case) {
 	if len(s1)%3 == 0 {
 		interfere(ctx, in1) // e.g. a lax parser has seen one spelling before
 	}
-	h1, ok1, p1 := m.hostOf(ctx, in1)
-	h2, ok2, p2 := m.hostOf(ctx, in2)
+	var hp url.Parser
+	if len(cs.Config) > 1 && cs.Config[1] == "identity-hooks" {
+		hp = c09Hooked
+		ctx.Count("under_identity_hooks")
+	}
+	h1, ok1, p1 := c09HostOfWith(ctx, hp, in1)
+	h2, ok2, p2 := c09HostOfWith(ctx, hp, in2)
 	if p1 != nil || p2 != nil {
 		ctx.Violate("panic while parsing a host spelling", "", p1.String()+" "+p2.String(), in1+" | "+in2)
 		return
